@@ -360,6 +360,22 @@ def gen_C03(rng, tier):
                 w.append('wc %s %s %d %d' % (code, fl, p, v))
                 r.append('rc %s %s %d' % (code, rfl, p))
         lines.append('S %s ww=%d :: %s' % (cfg, ww, ' ; '.join(w + ['wf', 'reopen'] + r + ['pos'])))
+    # the codeword is the last thing in a stream that ends (strict backends): a look-ahead that runs
+    # into the end must leave the reader where the bit-by-bit decoder leaves it
+    strict = [c for c in rcfgs if 'strict=1' in c]
+    tails = [c for c in cases if c[0] in ('gamma', 'delta', 'zeta3', 'omega', 'unary')]
+    tails = rng.sample(tails, min(len(tails), 1500 if quick else 12000))
+    for (code, fl, p, v) in tails:
+        cfg = rng.choice(strict)
+        W = rw_of(cfg)
+        rfl = fl
+        if uses_table_read(code, fl) and peek_cap(cfg) < 16:
+            continue
+        off = rng.randrange(0, 2 * W + 2)
+        pre = fill_to(rng, 1 << 30, off)
+        ops = pre + ['wc %s %s %d %d' % (code, fl, p, v), 'wf', 'reopen', 'rs %d' % off,
+                     'rc %s %s %d' % (code, rfl, p), 'pos', 'rb 1', 'pos']
+        lines.append('S %s ww=8 :: %s' % (cfg, ' ; '.join(ops)))
     return lines
 
 
@@ -470,6 +486,37 @@ def gen_C05(rng, tier, diag=None):
                 data = bits_to_bytes(le, bits)
                 tf = {'gamma': '1', 'delta': rng.choice(['11', '10', 'd']), 'zeta3': rng.choice(['1', 'd'])}[code]
                 ops = ['rs %d' % padn] + ['rc %s %s 0' % (code, tf) for _ in vals] + ['pos']
+                lines.append('S %s data=%s :: %s' % (cfg, hexs(data), ' ; '.join(ops)))
+    # a table look-ahead right after a seek (word-aligned and not, forwards and backwards) while the
+    # bit buffer still holds unread bits of the previous position
+    for cfg in rcfgs:
+        W = rw_of(cfg)
+        le = 'e=le' in cfg
+        key = ('bit' if is_bit(cfg) else 'buf%d' % W)
+        flagged = diag.get(key, set())
+        wordbits = 64 if is_bit(cfg) else W
+        for code in TABLE_BITS:
+            if code in flagged or (code == 'delta' and 'gamma' in flagged):
+                continue
+            for _ in range(12 if quick else 200):
+                head = [1 if rng.random() < 0.8 else 0 for _ in range(wordbits * rng.randrange(1, 4))]
+                if rng.random() < 0.3:
+                    head += [rng.getrandbits(1) for _ in range(rng.randrange(1, wordbits))]
+                P = len(head)
+                vals = [rng.choice([0, 1, 2, 3, 5, 10, 30, 100, 1000]) for _ in range(rng.randrange(1, 8))]
+                bits = list(head)
+                starts = []
+                for v in vals:
+                    starts.append(len(bits))
+                    bits += codeword(le, code, 0, v)
+                bits += [rng.getrandbits(1) for _ in range(2 * wordbits + 16)] + [1]
+                data = bits_to_bytes(le, bits)
+                tf = {'gamma': '1', 'delta': rng.choice(['11', '10', 'd']), 'zeta3': rng.choice(['1', 'd'])}[code]
+                ops = ['rb %d' % rng.randrange(1, min(P, 64) + 1), 'seek %d' % P]
+                ops += ['rc %s %s 0' % (code, tf) for _ in vals] + ['pos']
+                j = rng.randrange(len(vals))
+                ops += ['seek %d' % starts[j], 'rc %s %s 0' % (code, tf), 'pos', 'seek 0', 'rb 1', 'seek %d' % P,
+                        'rc %s %s 0' % (code, tf), 'pos']
                 lines.append('S %s data=%s :: %s' % (cfg, hexs(data), ' ; '.join(ops)))
     # encoding tables and length tables around the boundary: bits with tables on == off
     for code, wmax in (('gamma', 63), ('delta', 1023), ('zeta3', 1023)):
@@ -667,6 +714,10 @@ def gen_C12(rng, tier):
             for ln in (lens if not quick else rng.sample(lens, 6)):
                 data = rand_bytes(rng, (off + 8 * ln) // 8 + rng.choice([0, 1, 9, 17]))
                 lines.append('S %s data=%s :: rs %d ; rio %d ; pos ; rb 5 ; rio 3 ; pos' % (cfg, hexs(data), off, ln))
+                # the same after a look-ahead (the bit buffer then holds more than one word)
+                k = rng.randrange(1, peek_cap(cfg) + 1)
+                lines.append('S %s data=%s :: rs %d ; rp %d ; rio %d ; pos ; rp %d ; rio 9 ; pos'
+                             % (cfg, hexs(data + rand_bytes(rng, 24, 'ones')), off, k, ln, rng.randrange(1, peek_cap(cfg) + 1)))
     return lines
 
 
@@ -710,6 +761,14 @@ def gen_C11(rng, tier):
                 ops.append(rng.choice(['rw', 'wp', 'sp %d' % rng.randrange(0, n + 2)]))
             ops.append('wp')
             lines.append('AD seek w=%d data=%s :: %s' % (W, hexs(data), ' ; '.join(ops)))
+        # a read that fails inside a partial trailing word leaves the byte position unaligned;
+        # seeking afterwards must still address whole words
+        for n in range(0, 4):
+            for extra in sorted(set([1, B // 2, B - 1]) - set([0])) if B > 1 else []:
+                data = rand_bytes(rng, n * B + extra, 'rand')
+                for k in range(0, n + 2):
+                    ops = ['rw'] * (n + 1) + ['wp', 'sp %d' % k, 'wp', 'rw', 'wp', 'sp 0', 'rw', 'wp']
+                    lines.append('AD seek w=%d data=%s :: %s' % (W, hexs(data), ' ; '.join(ops)))
         # random schedules
         for _ in range(40 if quick else 1500):
             nwords = rng.randrange(1, 5)
